@@ -53,11 +53,17 @@ def cases(tier, seed):
                                     + ["none", "param", "obs", "both"].index(aux) + ["none", "eq", "nn+eq"].index(tracked) + len(split) + sum(split))
                                 if h % 3:
                                     continue
-                            out.append(dict(kind=kind, opt=opt, n=n, b=b, aux=aux, tracked=tracked, split=split, key=seed + 5, path="while_loop"))
+                            out.append(dict(kind=kind, opt=opt, n=n, b=b, aux=aux, tracked=tracked, split=split, key=seed + 5, path="while_loop",
+                                            **({"nt": n + 1, "bt": b + 1} if kind == "nonstatio" else {})))
                             if aux in ("obs", "both") and tracked != "nn+eq":
                                 # second execution path of solve: a Python while loop with an un-jitted get_batch when the
                                 # observation batch is placed on a device explicitly (obs_batch_sharding)
                                 out.append(dict(kind=kind, opt=opt, n=n, b=b, aux=aux, tracked=tracked, split=split, key=seed + 5, path="python_loop"))
+    if "nonstatio" not in B["kinds"]:
+        # quick tier: a few space-time programs (temporal batch size != spatial batch size, auxiliary loaders of
+        # temporal x spatial rows)
+        for (aux, tracked, split) in (("both", "eq", [3]), ("param", "nn+eq", [1, 2]), ("obs", "none", [2]), ("none", "eq", [3])):
+            out.append(dict(kind="nonstatio", opt="sgd", n=4, b=2, nt=5, bt=3, aux=aux, tracked=tracked, split=split, key=seed + 5, path="while_loop"))
     for kind in B["kinds"]:
         for opt in B["opts"]:
             out.append(dict(kind=kind, opt=opt, n=4, b=2, aux="none", tracked="eq", split=[3], key=seed + 5, path="while_loop", inf_param=True))
